@@ -201,7 +201,7 @@ func (n *Net) Pump() {
 		progress = false
 		for _, i := range n.Order {
 			nd := n.Nodes[i]
-			for nd.CS.VerifInternalLen() > 0 {
+			for nd.Halted == "" && nd.CS.VerifInternalLen() > 0 {
 				// journal first: the message is handled inside VerifDeliverInternal
 				before := len(nd.Journal)
 				_ = before
@@ -225,9 +225,14 @@ func (n *Net) Pump() {
 
 func (n *Net) deliverInternal(nd *Node) (cs.Message, bool) {
 	// We cannot peek the queue, so journal after the fact with the pre-height.
+	if nd.Halted != "" {
+		return nil, false
+	}
 	h := nd.Height()
-	msg, ok := nd.CS.VerifDeliverInternal()
-	if !ok {
+	var msg cs.Message
+	var ok bool
+	n.guard(nd, func() { msg, ok = nd.CS.VerifDeliverInternal() })
+	if !ok || nd.Halted != "" {
 		return nil, false
 	}
 	n.journal(nd, msg, true)
@@ -268,6 +273,30 @@ func (n *Net) noteOwn(nd *Node, msg cs.Message) {
 	}
 }
 
+// guard runs one receiveRoutine arm; a panic halts the node like the
+// "CONSENSUS FAILURE" recover in receiveRoutine does.
+func (n *Net) guard(nd *Node, f func()) {
+	defer func() {
+		if r := recover(); r != nil {
+			nd.Halted = fmt.Sprint(r)
+			n.Stats["consensus_panics"]++
+			n.tr("n%d CONSENSUS FAILURE: %v", nd.Idx, r)
+		}
+	}()
+	f()
+}
+
+// Halted returns the correct nodes that stopped on a consensus panic.
+func (n *Net) HaltedNodes() map[int]string {
+	out := map[int]string{}
+	for _, i := range n.Order {
+		if n.Nodes[i].Halted != "" {
+			out[i] = n.Nodes[i].Halted
+		}
+	}
+	return out
+}
+
 // Deliver hands an envelope to its destination (as the reactor would, after ValidateBasic).
 func (n *Net) Deliver(e *Envelope) {
 	nd := n.Nodes[e.To]
@@ -280,10 +309,13 @@ func (n *Net) Deliver(e *Envelope) {
 			return
 		}
 	}
+	if nd.Halted != "" {
+		return
+	}
 	n.Step++
 	n.journal(nd, e.Msg, false)
 	n.tr("n%d <- v%d %s", e.To, e.From, describe(e.Msg))
-	nd.CS.VerifDeliverPeer(e.Msg, peerID(e.From))
+	n.guard(nd, func() { nd.CS.VerifDeliverPeer(e.Msg, peerID(e.From)) })
 	n.Stats["delivered"]++
 	n.Pump()
 }
@@ -291,8 +323,13 @@ func (n *Net) Deliver(e *Envelope) {
 // FireTimeout fires the pending timeout of a node.
 func (n *Net) FireTimeout(i int) bool {
 	nd := n.Nodes[i]
+	if nd.Halted != "" {
+		return false
+	}
 	n.Step++
-	to, ok := nd.CS.VerifFireTimeout()
+	var to cs.VerifTimeout
+	var ok bool
+	n.guard(nd, func() { to, ok = nd.CS.VerifFireTimeout() })
 	if !ok {
 		return false
 	}
@@ -506,3 +543,6 @@ func popcount(b *bits.BitArray) int {
 	}
 	return c
 }
+
+// KeyOf returns the deterministic key of genesis validator i for a seed.
+func KeyOf(seed int64, i int) crypto.PrivKey { return chaingen.Key(seed, i) }
